@@ -131,15 +131,40 @@ func checkConflicts[T Opcoder](groups []maskGroup[T]) error {
 			}
 
 			for _, o := range gj.opcodes {
-				opc, ok := gi.matchInstruction(o.opcode.Bytes)
-				if ok {
-					return duplicateOpcodeErr(o, opc)
+				for _, opc := range gi.opcodes {
+					if opcodesConflict(o, opc) {
+						return duplicateOpcodeErr(o, opc)
+					}
 				}
 			}
 		}
 	}
 
 	return nil
+}
+
+// opcodesConflict checks if there is any sequence of bytes which matches both o1
+// and o2.
+//
+// It's not sufficient to match bytes of one opcode against the other one as
+// bits not covered by mask of the first opcode can have any value. Two opcodes
+// conflict if their bytes are equal in all bits covered by both masks. If one
+// opcode is shorter, only its length is compared as any longer sequence of
+// bytes with matching start matches the shorter opcode.
+func opcodesConflict[T Opcoder](o1 opcode[T], o2 opcode[T]) bool {
+	l := len(o1.masked)
+	if l2 := len(o2.masked); l2 < l {
+		l = l2
+	}
+
+	for i := 0; i < l; i++ {
+		common := o1.opcode.Mask[i] & o2.opcode.Mask[i]
+		if o1.masked[i]&common != o2.masked[i]&common {
+			return false
+		}
+	}
+
+	return true
 }
 
 // Match matches a sequence of bytes to an instruction opcode.
